@@ -83,7 +83,7 @@ CHECKS['C19'] = (
     'diff = filter, sequential subtraction = subtraction of the union, tolerance counter-example) + differential execution against curate.compare/diff',
     'Proof (on the model): entryOk_zero / vecEq_zero / matEq_zero / compareSorted_zero (equal exactly when momentum and the table of exponent and signed '
     'coefficient values agree, any notation), equalBy_unique_partner, subtractBy_spec, subtractBy_append; tolerance_subset_is_not_pairing proves that '
-    'the tolerance clause fails for the mutual-subset algorithm (known finding F8a, replayed on the real code). Tie: model verdict = implementation verdict '
+    'the tolerance clause fails for the mutual-subset algorithm (known finding F8a, replayed on the real code); equalBy_is_matching proves the clause under the hypothesis that the counter-example violates: when no shell is within tolerance of two shells of the other list and no list repeats a shell, "equal" yields a one-to-one pairing (the images of the partner function are a permutation of the other list). Tie: model verdict = implementation verdict '
     'on every generated pair (sort keys passed as ranks); the exact-equality oracle of the harness states the property directly for 20 perturbation kinds.',
     BASE_NOTE + 'KeyInjective hypothesis on the float sort key (ties skipped and counted); ECP terms compared in stored order.', '6/C19')
 
